@@ -14,7 +14,7 @@ def _thorough_only(rule):
 PROPS = {
     "C16": {
         "rules": [formatting.rule_pgram, formatting.rule_lex, formatting.rule_litfmt, enums.rule_enum_surface,
-                  traversal.rule_trav(["scc_printer::types::Print"]), formatting.rule_fmtwrite],
+                  traversal.rule_trav(["scc_printer::types::Print"]), formatting.rule_fmtwrite, formatting.rule_pspan],
         "text": "Printer/grammar agreement decided statically: every Fun syntax node's Print impl is folded into its token templates "
                 "(abstract interpretation of MIR with the `pretty` builder modelled), each template is re-lexed with the grammar's "
                 "longest-match lexer and must derive from a production that builds the node with holes bound to the same fields in "
